@@ -296,7 +296,7 @@ public:
     }
     virtual int close() override {
         if (m_finish) return 0;
-        if (write(nullptr, 0) == 0) {
+        if (write_chunk(nullptr, 0) == 0) {
             m_finish = true;
             return 0;
         }
@@ -304,6 +304,13 @@ public:
     }
 
     virtual ssize_t write(const void *buf, size_t count) override {
+        // a zero-sized chunk is the terminator of the body: an empty write
+        // in the middle of a body must not emit one
+        if (count == 0) return 0;
+        return write_chunk(buf, count);
+    }
+
+    ssize_t write_chunk(const void *buf, size_t count) {
         char chunk_size[20];
         auto size = snprintf(chunk_size, sizeof(chunk_size), "%zx\r\n", count);
         if (size <= 0) return -1;
@@ -316,6 +323,7 @@ public:
     virtual ssize_t writev(const struct iovec *iov, int iovcnt) override {
         char chunk_size[20];
         ssize_t count = iovector_view((struct iovec*)iov, iovcnt).sum();
+        if (count == 0) return 0;   // see write()
         auto size = snprintf(chunk_size, sizeof(chunk_size), "%zx\r\n", (size_t)count);
         if (m_stream->write(chunk_size, size) != size) return -1;
         if (m_stream->writev(iov, iovcnt) != count) return -1;
